@@ -27,28 +27,22 @@ Definition flat_acc (cfg : config) (st : state) (d v : Z) : list Z :=
     s_accum st Staking d v;
     s_accum st Unstaking d v ].
 
-Definition ids_upto (n : Z) : list Z := map Z.of_nat (seq 1 (Z.to_nat n)).
-
 Definition flat_conns (st : state) : list Z :=
   let l := flat_map (fun id => match s_conn st id with Some (d, v) => [[id; d; v]] | None => [] end) (ids_upto (s_last st)) in
   Z.of_nat (length l) :: concat l.
 
-Definition synth_le (a b : synth) : bool :=
-  (y_lock a <? y_lock b) || ((y_lock a =? y_lock b) && (kindz (y_kind a) <=? kindz (y_kind b))).
-Fixpoint ins_synth (y : synth) (l : list synth) : list synth :=
-  match l with
-  | [] => [y]
-  | x :: r => if synth_le y x then y :: l else x :: ins_synth y r
-  end.
-Definition sort_synths (l : list synth) : list synth := fold_right ins_synth [] l.
-
+(* all synthetic locks, by underlying lock id (a lock never carries two: see the marker invariant) *)
 Definition flat_synths (st : state) : list Z :=
-  Z.of_nat (length (s_synths st)) ::
-  flat_map (fun y => [y_lock y; kindz (y_kind y); y_denom y; y_val y; y_end y; y_dur y]) (sort_synths (s_synths st)).
+  let l := flat_map (fun id => map (fun y => [id; kindz (y_kind y); y_denom y; y_val y; y_end y; y_dur y]) (s_synths st id))
+                    (ids_upto (s_last st)) in
+  Z.of_nat (length l) :: concat l.
 
 Definition flat_locks (st : state) : list Z :=
-  Z.of_nat (length (s_locks st)) ::
-  flat_map (fun l => [l_id l; l_owner l; l_denom l; l_amt l; l_dur l; l_end l]) (s_locks st).
+  let l := flat_map (fun id => match s_locks st id with
+                               | Some l => [[id; l_owner l; l_denom l; l_amt l; l_dur l; l_end l]]
+                               | None => []
+                               end) (ids_upto (s_last st)) in
+  Z.of_nat (length l) :: concat l.
 
 (* query TotalSuperfluidDelegations: sum over accounts of (shares / validator shares * validator tokens).RoundInt() *)
 Definition total_sf (st : state) : Z :=
